@@ -27,7 +27,7 @@ def setIvalue (n : Node) (ival : Int) : Node × Int :=
       let hi0 := castI32 (ctrunc mx)
       let hi := if n1.desc = 20011 then hi0 + 1 else hi0
       if lo ≤ ival ∧ ival ≤ hi then ({ n1 with val := n1.val.setInt32 ival }, 1)
-      else ({ n1 with val := n1.val.setInt32 (-1) }, if ival ≠ -1 then -1 else 1)
+      else ({ n1 with val := n1.val.setInt32 (-1) }, 1)      -- the return code is that of `bufr_value_set_int32`
     | none => ({ n1 with val := n1.val.setInt32 (-1) }, 1)
 
 /-- `bufr_descriptor_set_dvalue(cb, dval)` for a finite or missing `dval` -/
